@@ -33,6 +33,7 @@ FIXED = {  # subject prefix (without "fix: ") -> property
  "do not panic in Package::from_bytes on a core module type": "C08",
  "world include renames a name that is both imported and exported": "C05",
  "a type declared under the name of a function or instance item": "C14",
+ "a merge conflict that involves an explicit import is reported": "C14",
 }
 out = []
 log = subprocess.run(["git", "-C", "/repo", "log", "--reverse", "--format=%h%x00%s%x00%b%x01", BASE + "..HEAD"],
